@@ -134,6 +134,40 @@ def export_case(cls, variant, events, errors, freeze=False):
                  "spden": den, "zeros": zeros, "spz": int(round(sp * den))})
 
 
+def folded_case(rnd, events, dw):
+  """Batch-norm folded layers: the dictionary entry is the quantizer applied to the FOLDED kernel and bias
+  (kernel * gamma / sqrt(var + eps), (bias - mean) * gamma / sqrt(var + eps) + beta); the layer's own variables and the
+  predictions stay as they are."""
+  from qkeras import QConv2DBatchnorm, QDepthwiseConv2DBatchnorm
+  kq, bq = "quantized_bits(6,2,1,alpha=1.0)", "quantized_bits(8,4,1,alpha=1.0)"
+  i = L.Input((4, 4, 2))
+  usebias = rnd.random() < 0.5
+  if dw:
+    lay = QDepthwiseConv2DBatchnorm((2, 2), depthwise_quantizer=kq, bias_quantizer=bq, use_bias=usebias, epsilon=EPS, name="f")
+  else:
+    lay = QConv2DBatchnorm(3, (2, 2), kernel_quantizer=kq, bias_quantizer=bq, use_bias=usebias, epsilon=EPS, name="f")
+  m = tf.keras.Model(i, lay(i))
+  nch = 2 if dw else 3
+  J = np.array([rnd.randint(0, 2) for _ in range(nch)])
+  vals = {"kernel": rints(rnd, (2, 2, 2, 3), -6, 6, EK), "depthwise_kernel": rints(rnd, (2, 2, 2, 1), -6, 6, EK),
+          "bias": rints(rnd, (nch,), -5, 5, EB), "gamma": rints(rnd, (nch,), 1, 4, EG), "beta": rints(rnd, (nch,), -20, 20, EFB),
+          "moving_mean": rints(rnd, (nch,), -5, 5, EB), "moving_variance": (4.0 ** J - EPS).astype(np.float32)}
+  set_named(lay, vals)
+  x = rints(rnd, (2, 4, 4, 2), -6, 6, EX)
+  y0 = m.predict(x, verbose=0)
+  w0 = [w.copy() for w in lay.get_weights()]
+  d = qutils.model_save_quantized_weights(m)
+  inv = (vals["gamma"] * 2.0 ** (-J.astype(np.float64))).astype(np.float32)
+  k = vals["depthwise_kernel"] * inv.reshape((nch, 1)) if dw else vals["kernel"] * inv
+  b = ((vals["bias"] if usebias else 0.0) - vals["moving_mean"]) * inv + vals["beta"]
+  want = [np.asarray(Q.get_quantizer(kq)(tf.constant(k.astype(np.float32)))), np.asarray(Q.get_quantizer(bq)(tf.constant(b.astype(np.float32))))]
+  got = d.get("f", {}).get("weights", [])
+  ok = len(got) == 2 and all(np.array_equal(np.asarray(a), w) for a, w in zip(got, want))
+  same = all(np.array_equal(a, b_) for a, b_ in zip(w0, lay.get_weights())) and np.array_equal(y0, m.predict(x, verbose=0))
+  events.append({"kind": "folded", "cls": "QDepthwiseConv2DBatchnorm" if dw else "QConv2DBatchnorm", "dw": int(dw), "usebias": int(usebias), "entry_ok": int(ok), "layer_untouched": int(same),
+                 "gam": [1], "J": [0], "b": [0], "mean": [0], "beta": [0], "inv": [0], "fb": [0], "qinv": [0], "bnw_ok": 1})
+
+
 class UserScale(L.Layer):
   """A user-defined layer class, known to the library only through custom_objects."""
 
@@ -238,6 +272,11 @@ def main():
       export_case(cls, variant, events, errors, freeze)
     except Exception as e:
       errors.append({"k": "exc", "cls": cls, "variant": variant, "freeze": freeze, "exc": repr(e)[:300]})
+  for t in range(2 if tier == "quick" else 10):
+    try:
+      folded_case(rnd, events, dw=bool((t + shard) % 2))
+    except Exception as e:
+      errors.append({"k": "exc", "cls": "folded", "variant": "", "freeze": False, "exc": repr(e)[:300]})
   for _ in range(8 if tier == "quick" else 40):
     try:
       bnfuse_case(rnd, events)
@@ -246,7 +285,7 @@ def main():
   for ev in events:
     for k, v in (("w1", [[0, 0]]), ("qw", [[0, 0]]), ("hw", [[0, 0]]), ("sg", [[1, 0]]), ("sc", [[1, 0]]), ("qkind", "other"),
                  ("bits", 0), ("kn", 1), ("sgbad", 0), ("int", 0), ("qs", [[1, 0]]), ("indep", 0), ("frozen", 0), ("pred", 1), ("second", 1), ("gam", [0]), ("J", [0]),
-                 ("lossy", 0), ("fusable", 1), ("marked", 1), ("qinv", [0]), ("bnw_ok", 1), ("spden", 0), ("zeros", 0), ("spz", 0), ("b", [0]), ("mean", [0]), ("beta", [0]), ("inv", [0]), ("fb", [0])):
+                 ("lossy", 0), ("entry_ok", 1), ("layer_untouched", 1), ("fusable", 1), ("marked", 1), ("qinv", [0]), ("bnw_ok", 1), ("spden", 0), ("zeros", 0), ("spz", 0), ("b", [0]), ("mean", [0]), ("beta", [0]), ("inv", [0]), ("fb", [0])):
       ev.setdefault(k, v)
   write_ndjson("%s.%d.ndjson" % (prefix, shard), events)
   json.dump(errors, open("%s.%d.err.json" % (prefix, shard), "w"))
